@@ -91,13 +91,28 @@ def run_unit(uname, tier):
                 kw["extra_args"] = mod.EXTRA_ARGS
             shard_ids = mod.shards(tier) if hasattr(mod, "shards") else [None]
             gens = [mod.build(tier) if sid is None else mod.build(tier, shard=sid) for sid in shard_ids]
+            jobs = list(zip(shard_ids, gens))
+            # vacuity control runs alongside the real shards
+            if getattr(mod, "HAS_MUSTFAIL", True):
+                try:
+                    jobs.append(("mf", mod.build(tier, must_fail=True)))
+                except rsx.Lost as e:
+                    out["mustfail"] = {"rejected": False, "failures": 0, "undecided": ["lost: %s" % e]}
 
             def one(pair):
                 sid, g = pair
                 return vrun.run_verus(g, os.path.join(WORK, uname), tag=(None if sid is None else str(sid)),
-                                      threads=(None if sid is None else 2), **kw)
+                                      threads=(None if (sid is None or len(jobs) <= 2) else 3), **kw)
             with cf.ThreadPoolExecutor(max_workers=int(os.environ.get("VERIF_SHARD_JOBS", "8"))) as ex:
-                rs = list(ex.map(one, zip(shard_ids, gens)))
+                rs_all = list(ex.map(one, jobs))
+            rs = []
+            for (sid, g), r in zip(jobs, rs_all):
+                if sid == "mf":
+                    ok = len(r["failures"]) >= 1 and not r["undecided"]
+                    out["mustfail"] = {"rejected": ok, "failures": len(r["failures"]),
+                                       "undecided": [u.get("message") or u.get("reason") for u in r["undecided"]]}
+                else:
+                    rs.append(r)
             out["cmd"] = rs[0]["cmd"] + (" (+%d more shards)" % (len(rs) - 1) if len(rs) > 1 else "")
             out["file"] = rs[0]["file"]
             scan = []
@@ -114,16 +129,6 @@ def run_unit(uname, tier):
                                                      "under_contract", "trusted")} for it in g.items]
                 scan += scan_assumptions(g.text())
             out["gen_text_scan"] = sorted(set(scan))
-            # vacuity control
-            if hasattr(mod, "build") and getattr(mod, "HAS_MUSTFAIL", True):
-                try:
-                    gm = mod.build(tier, must_fail=True)
-                    rm = vrun.run_verus(gm, os.path.join(WORK, uname), tag="mf", **kw)
-                    ok = len(rm["failures"]) >= 1 and not rm["undecided"]
-                    out["mustfail"] = {"rejected": ok, "failures": len(rm["failures"]),
-                                       "undecided": [u.get("message") or u.get("reason") for u in rm["undecided"]]}
-                except rsx.Lost as e:
-                    out["mustfail"] = {"rejected": False, "failures": 0, "undecided": ["lost: %s" % e]}
         else:
             r = mod.run(tier, os.path.join(WORK, uname))
             out.update(r)
